@@ -74,7 +74,7 @@ type lru struct {
 func checkC13() *checkDef {
 	return &checkDef{
 		ID: "C13", Title: "Size limit enforced by LRU eviction; cleanup removes exactly the expired", Level: "model_checking",
-		LevelText: "Exhaustive enumeration of cache populations (2-4 entries, sizes from {100,300,600} bytes, every access order, every expiry subset) x limits x shard counts x triggers (store on another shard, store on a colliding shard, janitor cycle) with the limit changed at run time through the config event, on the real code under the virtual clock; each outcome is judged by a relational reference written from the property text (nothing evicted below the limit; down to <=80% or until nothing evictable is left; stops at the target; least recently used first within a size class; cleanup removes exactly the expired). Plus all schedules (K preemptions) of a fresh overwrite racing the cleanup scan/removal. Also all schedules of an eviction (janitor cycle or store-triggered) racing a deletion that frees the bytes itself, with every removal made by the janitor code traced together with the size the cache reported just before it: a removal at or below the target that no concurrent operation excuses is a violation.",
+		LevelText: "Exhaustive enumeration of cache populations (2-4 entries, sizes from {100,300,600} bytes, every access order, every expiry subset) x limits x shard counts x triggers (store on another shard, store on a colliding shard, janitor cycle) with the limit changed at run time through the config event, on the real code under the virtual clock; each outcome is judged by a relational reference written from the property text (nothing evicted below the limit; down to <=80% or until nothing evictable is left; stops at the target; least recently used first within a size class; cleanup removes exactly the expired). Plus all schedules (K preemptions) of a fresh overwrite racing the cleanup scan/removal. Also all schedules of an eviction (janitor cycle or store-triggered) racing a deletion that frees the bytes itself, with every removal made by the janitor code traced together with the size the cache reported just before it: a removal at or below the target that no concurrent operation excuses is a violation. Size weighting (cache/size-weight): a 2 MiB larger entry used one millisecond after a small one outranks it (the statement gives no figure; only that the weighting is observable is demanded), for the periodic cycle and the store trigger; an entry overwritten between the eviction pass's scan and its removals stays (all schedules).",
 		LevelNote: "Trusted: instrumenter, virtual clock (1 microsecond tick per Now()), harness view of the entry maps. Entries sharing the triggering store's shard lock are exempt as the property allows. The size-weight constant is deliberately not part of the reference.",
 		Technique: "explicit-state enumeration of populations/triggers on the implementation against a relational reference model + preemption-bounded schedule enumeration",
 		DesignRef: "DESIGN.md section 4 C13, appendix B4",
@@ -328,6 +328,10 @@ func checkC09() *checkDef {
 				ps = append(ps, psched{Name: n("delete-during-handover"), Backend: be, Clients: 2, Start: "cold", Outcome: "cacheable", Evictor: "delete", Prop: "C09"})
 				ps = append(ps, psched{Name: n("delete-during-handover-304"), Backend: be, Clients: 2, Start: "stale-304", Outcome: "cacheable", Evictor: "delete", Prop: "C09"})
 				ps = append(ps, psched{Name: n("other-client-hangs-up"), Backend: be, Clients: 2, Start: "cold", Outcome: "cacheable", Cancel: 2, Slow: true, Prop: "C09"})
+				// the client whose request started the shared fetch / the shared revalidation hangs up
+				ps = append(ps, psched{Name: n("starter-hangs-up"), Backend: be, Clients: 2, Start: "cold", Outcome: "cacheable", Cancel: 1, Prop: "C09"})
+				ps = append(ps, psched{Name: n("starter-hangs-up-during-revalidation"), Backend: be, Clients: 2, Start: "stale-304", Outcome: "cacheable", Cancel: 1, Prop: "C09"})
+				ps = append(ps, psched{Name: n("starter-hangs-up-during-refresh"), Backend: be, Clients: 2, Start: "stale-200", Outcome: "cacheable", Cancel: 1, Prop: "C09"})
 			}
 			return []run{
 				// range requests refused upstream and retried: a retry answer the cache cannot keep (empty body on
@@ -345,7 +349,7 @@ func checkC09() *checkDef {
 func checkC10() *checkDef {
 	return &checkDef{
 		ID: "C10", Title: "Each exchange on a CONNECT tunnel is isolated and equals plain proxying", Level: "model_checking",
-		LevelText: "Explicit-state exploration of exchange sequences: every sequence of length <=3 (<=4 thorough) over nine exchange shapes (cacheable 200, its HIT, chunked no-store 200, 404 with body, 204, HEAD, Range->206, POST with body, origin 500, response with distinctive headers) is sent (i) over one kept-alive tunnel through the real handleCONNECT with a real TLS handshake, (ii) over one tunnel per request and (iii) over plain HTTP, against identically scripted origins; per position the three answers must agree on status, end-to-end header multimap and body (differential oracle: (i)!=(ii) means the answer depends on an earlier exchange). The shape alphabet includes two exchanges that fail inside the proxy while carrying a request body (unusable inner Host with a body that looks like a request; unreachable origin): their body bytes must not be read as the next request.",
+		LevelText: "Explicit-state exploration of exchange sequences: every sequence of length <=3 (<=4 thorough) over nine exchange shapes (cacheable 200, its HIT, chunked no-store 200, 404 with body, 204, HEAD, Range->206, POST with body, origin 500, response with distinctive headers) is sent (i) over one kept-alive tunnel through the real handleCONNECT with a real TLS handshake, (ii) over one tunnel per request and (iii) over plain HTTP, against identically scripted origins; per position the three answers must agree on status, end-to-end header multimap and body (differential oracle: (i)!=(ii) means the answer depends on an earlier exchange). The shape alphabet includes two exchanges that fail inside the proxy while carrying a request body (unusable inner Host with a body that looks like a request; unreachable origin): their body bytes must not be read as the next request. Further shapes (sixteen in all): HEAD of a chunked resource, an origin that breaks off a sized body, a response without Content-Type, a GET with a body that looks like a request, a HEAD answered by the proxy's own 502. A fourth transport writes the whole sequence into one tunnel before the first answer is read (pipelining).",
 		LevelNote: "Trusted: in-memory connections and the real net/http + crypto/tls stacks; Date, Content-Length/Transfer-Encoding/Connection are excluded from the comparison (framing may differ, the body may not).",
 		Technique: "explicit-state enumeration of exchange sequences on the implementation with a three-way differential oracle (kept-alive tunnel / fresh tunnel / plain)",
 		DesignRef: "DESIGN.md section 4 C10",
@@ -535,7 +539,7 @@ func checkC17() *checkDef {
 func checkC18() *checkDef {
 	return &checkDef{
 		ID: "C18", Title: "Only workable configurations are accepted; a rejected update changes nothing", Level: "model_checking",
-		LevelText: "Explicit-state exploration of update sequences (depth 2, 3 thorough) over 24 update documents (valid, rejected by verification, ill-typed, null, multi-key documents in which a later or earlier key fails; both map iteration orders) with a recording listener on every property: after a rejected update Read() of all 24 properties, the listeners' call logs and the bytes of var/config.json are unchanged and no thread has panicked; after an accepted one exactly the addressed settings changed and the file loads to the same settings. Fault enumeration: the config-file write fails at Create and after every byte count of the file. Suspect values (lock_shards<=0, zero budget, uncreatable cache dir, ...) are judged operationally: if accepted, a cache and proxy are started under them and must serve a request. A cache with its janitor subscribed must survive a rejected interval.",
+		LevelText: "Explicit-state exploration of update sequences (depth 2, 3 thorough) over 24 update documents (valid, rejected by verification, ill-typed, null, multi-key documents in which a later or earlier key fails; both map iteration orders) with a recording listener on every property: after a rejected update Read() of all 24 properties, the listeners' call logs and the bytes of var/config.json are unchanged and no thread has panicked; after an accepted one exactly the addressed settings changed and the file loads to the same settings. Fault enumeration: the config-file write fails at Create and after every byte count of the file. Suspect values (lock_shards<=0, zero budget, uncreatable cache dir, ...) are judged operationally: if accepted, a cache and proxy are started under them and must serve a request. A cache with its janitor subscribed must survive a rejected interval. Concurrency (config/concurrent, all schedules within K): GET /api/config, PATCH /api/config and a reader of the setting at the same time; a valid against an invalid update; two valid updates: a refused value is never read, notified or saved, a valid update is never refused because of another one, and running settings and file agree afterwards. Every JSON value shape at every position of an update document: a value of the wrong JSON type (null included) is rejected. Listen addresses are judged by the real net.Listen.",
 		LevelNote: "Trusted: vos seam for the config-file writes, reflection snapshot. Unbindable listen addresses are not judged (no sockets in the closed system).",
 		Technique: "explicit-state enumeration of update-document sequences with a full before/after state comparison + exhaustive write-failure point enumeration + operational acceptance test",
 		DesignRef: "DESIGN.md section 4 C18",
@@ -672,7 +676,7 @@ func schedScenariosOf(c *checkDef, tier string) []sched {
 func checkC15() *checkDef {
 	return &checkDef{
 		ID: "C15", Title: "Shared proxy state is free of data races", Level: "model_checking",
-		LevelText: "The Go race detector is run inside the schedule explorer: for every explored schedule (K preemptions) of the concurrent scenarios of C01, C12, C13 and C14 (and the scenarios that exist only here), the detector judges whether two conflicting accesses are unordered by the happens-before relation of that schedule. The scheduler's hand-offs are hidden from the detector (runtime.RaceDisable, //go:norace shims, no maps/closures/fmt in shim code) and the shim lock/waitgroup/once emit exactly the acquire/release edges of the real primitives, so only the code's own synchronisation orders accesses. Each report is normalised to the unordered pair of innermost reservoir frames + access kinds and matched against known_findings.json. Race-only scenarios: every entry overwritten while a cleanup / eviction scan is part-way; run-time changes of memory budget and size limit racing stores; concurrent certificate issuance for one host and for different hosts.",
+		LevelText: "The Go race detector is run inside the schedule explorer: for every explored schedule (K preemptions) of the concurrent scenarios of C01, C12, C13 and C14 (and the scenarios that exist only here), the detector judges whether two conflicting accesses are unordered by the happens-before relation of that schedule. The scheduler's hand-offs are hidden from the detector (runtime.RaceDisable, //go:norace shims, no maps/closures/fmt in shim code) and the shim lock/waitgroup/once emit exactly the acquire/release edges of the real primitives, so only the code's own synchronisation orders accesses. Each report is normalised to the unordered pair of innermost reservoir frames + access kinds and matched against known_findings.json. Race-only scenarios: every entry overwritten while a cleanup / eviction scan is part-way; run-time changes of memory budget and size limit racing stores; concurrent certificate issuance for one host and for different hosts; the configuration object marshalled (GET /api/config) while it is updated and subscribed to; the entry handed back by a store used by its caller (a harness function standing in for the proxy) while another request renews the stored one.",
 		LevelNote: "Trusted: ThreadSanitizer's happens-before tracking and its bounded history (executions are a few hundred accesses long), the edge model of vsync (mirrors sync.RWMutex's readerSem/writerSem scheme), the discard log handler (A4). A race is reported once per worker process by the detector; the schedule recorded is the one during which it was first reported.",
 		Technique: "happens-before race oracle evaluated on every schedule of a preemption-bounded exhaustive schedule enumeration of the implementation",
 		DesignRef: "DESIGN.md section 3 E2, section 4 C15",
